@@ -12,6 +12,9 @@ import (
 
 	"github.com/gopcua/opcua"
 	"github.com/gopcua/opcua/ua"
+	"github.com/gopcua/opcua/uacp"
+	"github.com/gopcua/opcua/uapolicy"
+	"github.com/gopcua/opcua/uasc"
 
 	"verifharness/fw"
 	"verifharness/keys"
@@ -130,6 +133,108 @@ func c09Hostile(r *rand.Rand, valid []byte, ch *refpeer.Channel, p *refpeer.Poli
 		out["retyped:"+t] = b
 	}
 	return out
+}
+
+// c09ClientOpen: the client asks for a secured channel; what comes back as the answer to its OpenSecureChannel request is
+// a chunk the server never produced: an OPN-typed chunk that names policy None and carries, unsigned and in the clear, an
+// OpenSecureChannelResponse with a token of the sender's choosing (also after a first, genuine exchange: as the answer
+// to a renewal). The channel must not open / must not take that token.
+func c09ClientOpen(c *fw.Ctx, idx int64, pm polMode, r *rand.Rand) {
+	p := refpeer.PolicyByURI(pm.uri)
+	sk, ck := keys.Get("b", 2048), keys.Get("a", 2048)
+	for _, when := range []string{"issue", "renew"} {
+		for _, variant := range []string{"plain", "channel-0", "padding-byte"} {
+			name := "forged-open-response:" + when + ":" + variant
+			srv, err := refpeer.NewServer(refpeer.ServerOpts{Policy: p, Mode: pm.mode, Key: sk.Key, Cert: sk.Cert})
+			if err != nil {
+				c.Inconclusive("listen: " + err.Error())
+				return
+			}
+			var mu sync.Mutex
+			var sentHex string
+			srv.OnOpen = func(sc *refpeer.SrvConn, m *refpeer.Msg, renew bool) bool {
+				if (when == "renew") != renew {
+					return true
+				}
+				req, _ := m.Service.(*ua.OpenSecureChannelRequest)
+				nonce := make([]byte, p.NonceLen)
+				resp := &ua.OpenSecureChannelResponse{ResponseHeader: refpeer.RespHeader(req, ua.StatusOK),
+					SecurityToken: &ua.ChannelSecurityToken{ChannelID: 4711, TokenID: 666, CreatedAt: time.Now(), RevisedLifetime: 3600000}, ServerNonce: nonce}
+				body, _ := refpeer.EncodeBody(resp)
+				a, _ := refpeer.NewAsymCtx(nil, nil, nil, nil)
+				chID := sc.Channel.ID
+				if !renew {
+					chID = 4711
+				}
+				b, err := a.SealOPN(chID, sc.TakeSeq(), m.ReqID, body, 0, 0)
+				if err != nil {
+					return true
+				}
+				switch variant {
+				case "channel-0":
+					binary.LittleEndian.PutUint32(b[8:], 0)
+				case "padding-byte":
+					b = append(b, 0)
+					binary.LittleEndian.PutUint32(b[4:], uint32(len(b)))
+				}
+				mu.Lock()
+				sentHex = hexTrunc(b)
+				mu.Unlock()
+				sc.WriteRaw(b)
+				return false
+			}
+			cs := c09E2ECase{Side: "client-open", Policy: p.Name, Mode: pm.mode, Mutation: name}
+			c.Journal(idx, cs)
+			cfg := &uasc.Config{SecurityPolicyURI: pm.uri, SecurityMode: ua.MessageSecurityMode(pm.mode), Lifetime: 3600000, RequestTimeout: 1500 * time.Millisecond,
+				Certificate: ck.Cert, LocalKey: ck.Key, RemoteCertificate: sk.Cert, Thumbprint: uapolicy.Thumbprint(sk.Cert)}
+			ctx, cancel := context.WithTimeout(context.Background(), 20*time.Second)
+			conn, err := uacp.Dial(ctx, srv.Endpoint())
+			if err != nil {
+				cancel()
+				srv.Close()
+				c.Inconclusive("dial: " + classOf(err.Error()))
+				continue
+			}
+			sc, err := uasc.NewSecureChannel(srv.Endpoint(), conn, cfg, make(chan error, 16))
+			var operr error
+			if err == nil {
+				operr = sc.Open(ctx)
+				if operr == nil && when == "renew" {
+					operr = sc.Renew(ctx)
+				} else if operr != nil && when == "renew" {
+					cancel()
+					conn.Close()
+					srv.Close()
+					c.Inconclusive("the genuine exchange before the renewal failed: " + classOf(operr.Error()))
+					continue
+				}
+			}
+			cancel()
+			c.Eval(1)
+			c.Class("client-open:"+when+":"+variant, 1)
+			c.Nontrivial("cliopen|" + p.Name + fmt.Sprint(pm.mode) + "|" + name)
+			took := false
+			if sc != nil {
+				for _, t := range sc.VerifTokens() {
+					if t.TokenID == 666 {
+						took = true
+					}
+				}
+			}
+			if err == nil && (operr == nil || took) {
+				mu.Lock()
+				cs.Hex = sentHex
+				mu.Unlock()
+				cs.Detail = fmt.Sprintf("result of the exchange: %v; channel holds the forged token: %v", operr, took)
+				c.Violation("c09:e2e-client-accepted-forged-open-response:"+when, fmt.Sprintf("%s/%s: the client took an unsigned OpenSecureChannel response in an OPN chunk naming policy None as the answer to its %s request (%s)", p.Name, modeName(pm.mode), when, variant), cs)
+			}
+			if sc != nil {
+				sc.Close()
+			}
+			conn.Close()
+			srv.Close()
+		}
+	}
 }
 
 func max(a, b int) int {
@@ -377,17 +482,20 @@ func c09E2E(c *fw.Ctx) {
 		if pm.mode == refpeer.ModeNone {
 			continue
 		}
-		for _, side := range []string{"server", "client"} {
+		for _, side := range []string{"server", "client", "client-open"} {
 			i := idx
 			idx++
 			if int(i%int64(c.NBatch)) != c.Batch || i < c.Resume {
 				continue
 			}
 			r := c.Rng("c09e2e", i)
-			if side == "server" {
+			switch side {
+			case "server":
 				c09ServerSide(c, i, pm, r)
-			} else {
+			case "client":
 				c09ClientSide(c, i, pm, r)
+			default:
+				c09ClientOpen(c, i, pm, r)
 			}
 			c.Done(i)
 		}
